@@ -72,13 +72,14 @@ InitArity(g, chain) ==
             [k |-> "private"]             resolves to a private method (explicit receiver)
             [k |-> "protected"]           resolves to a protected method, caller outside the hierarchy
             [k |-> "ambiguous"]           more than one candidate at the same level (not judged)      *)
+\* (attr: the method is an attribute reader - attr_accessor / attr_reader - whose type is that of the instance variable)
 Judge(cands) ==
-    IF cands = {} THEN [k |-> "undefined", ret |-> ""]
-    ELSE IF Cardinality(cands) > 1 THEN [k |-> "ambiguous", ret |-> ""]
+    IF cands = {} THEN [k |-> "undefined", ret |-> "", attr |-> FALSE]
+    ELSE IF Cardinality(cands) > 1 THEN [k |-> "ambiguous", ret |-> "", attr |-> FALSE]
     ELSE LET d == CHOOSE x \in cands : TRUE IN
-         IF d.vis = "private" THEN [k |-> "private", ret |-> ""]
-         ELSE IF d.vis = "protected" THEN [k |-> "protected", ret |-> ""]
-         ELSE [k |-> "ok", ret |-> d.ret]
+         IF d.vis = "private" THEN [k |-> "private", ret |-> "", attr |-> FALSE]
+         ELSE IF d.vis = "protected" THEN [k |-> "protected", ret |-> "", attr |-> FALSE]
+         ELSE [k |-> "ok", ret |-> d.ret, attr |-> d.how = "attr"]
 
 InstCall(g, c, name)   == Judge(ResolveInst(g, c, name))
 StaticCall(g, c, name) == Judge(ResolveStatic(g, c, name))
